@@ -23,6 +23,7 @@ type histOpts struct {
 	resetDat int
 	readAt   int
 	byteAt   int
+	peekAt   int
 	ntl      int // percentage of Parse calls with NoTrailingLiterals
 	faults   bool
 	overReset bool // draw Reset data longer than BufferSize now and then
@@ -94,7 +95,7 @@ func genParserHistory(t *rapid.T, x *parserExec, o histOpts) {
 			}
 		} else {
 			op = weighted(t, "op", o.write, o.fill, o.parse, o.drain, o.shrink, o.readFrom,
-				o.parseNil, o.resetNil, o.resetDat, o.readAt, o.byteAt)
+				o.parseNil, o.resetNil, o.resetDat, o.readAt, o.byteAt, o.peekAt)
 		}
 		switch op {
 		case 0: // write a chunk
@@ -152,6 +153,10 @@ func genParserHistory(t *rapid.T, x *parserExec, o histOpts) {
 			x.step(POp{Op: "readat", Off: off, Len: ln})
 		case 10:
 			x.step(POp{Op: "byteat", Off: genOffset(t, x)})
+		case 11:
+			off := genOffset(t, x)
+			ln := genSize(t, "pklen", x.buffered()+3, 0, 1)
+			x.step(POp{Op: "peekat", Off: off, Len: ln})
 		}
 	}
 }
